@@ -27,6 +27,7 @@ func checkC19(p *Prog, r *Report) {
 	ruleFilterBindsTightest(p, a, r, "R-C19-BIND")
 	ruleEvalNodesBuiltOnce(p, a, r, "R-C19-BUILT")
 	ruleC19Unwrap(p, a, r)
+	ruleC19EndArgs(p, a, r)
 }
 
 // chainLoop describes a loop over a slice of filter-call structs in an execution function.
